@@ -19,7 +19,10 @@ CONSTANTS
   DevWriteLock = FALSE
   DevRouteFirst = FALSE
   DevCleanupFirst = FALSE
-  DevLegRegistered = FALSE
+  RegLegs = {"F"}
+  DevIdleSweep = TRUE
+  DevFwdNoEof = TRUE
+  SrcKinds = @@SK@@
   DevBufio = FALSE
   AttachKinds = @@AK@@
   HoldOn = @@HOLD@@
